@@ -4,7 +4,7 @@
  * "join while running" are forced by the script and not left to chance.
  *
  * main script lines:
- *   keynew K F | new H J | go H S | waitst H S | ref H | unref H | join H
+ *   keynew K F | keyfree K | new H J | go H S | waitst H S | ref H | unref H | join H
  *   tset K V | trepl K V | tget K | epoch
  *   T H: <op> ...     sub-script of thread H (before "new H"): tset K V | trepl K V | tget K | write V | exit C | ret
  * thread life: [gate 1] start event, ops in order, write, [gate 2] exit/ret
@@ -20,7 +20,7 @@ typedef struct { char op[8]; int a, b; } TOp;
 static TOp tops[MAXH][32]; static int ntops[MAXH];
 static PUThread *hd[MAXH]; static volatile pint gate[MAXH], state[MAXH]; static volatile long cellv[MAXH];
 static void *haddr[MAXH];
-static PUThreadKey *keys[MAXK]; static int keyf[MAXK];
+static PUThreadKey *keys[MAXK]; static int keyf[MAXK], keyused[MAXK];      /* keyused: created in this scenario (its reference may have been released since) */
 static volatile pint exp_destroy, got_destroy, nfreed, ncreated;
 static const char *base; static volatile pint next_file = 100;
 static __thread int my_h = 0;
@@ -49,7 +49,8 @@ static void t_free (ppointer p) {
 	free (p);
 }
 static double now (void) { struct timespec ts; clock_gettime (CLOCK_MONOTONIC, &ts); return ts.tv_sec + ts.tv_nsec * 1e-9; }
-static int wait_until (volatile pint *v, int want) { double t0 = now (); while (p_atomic_int_get (v) < want) { if (now () - t0 > 10.0) return 0; sched_yield (); } return 1; }
+static double wd_limit = 10.0;      /* watchdog: 10 s; once it has expired in a run the later waits of that run give up after 1 s */
+static int wait_until (volatile pint *v, int want) { double t0 = now (); while (p_atomic_int_get (v) < want) { if (now () - t0 > wd_limit) { wd_limit = 1.0; return 0; } sched_yield (); } return 1; }
 
 /* first use of a fresh key by several threads at once: "race N" arms a rendezvous; the thread op "bar" is a spin barrier right before
  * the first TLS call, and pthread_key_create (wrapped at link time) returns late - after the others arrived or 20 ms - so that the lazy
@@ -108,7 +109,7 @@ static void *thread_fn (void *arg) {
 		else if (!strcmp (o->op, "exit") || !strcmp (o->op, "ret")) {
 			p_atomic_int_set (&state[h], 2);
 			wait_until (&gate[h], 2);
-			for (k = 1; k < MAXK; k++) if (keys[k] && keyf[k] && myval[k]) p_atomic_int_inc (&exp_destroy);
+			for (k = 1; k < MAXK; k++) if (keyused[k] && keyf[k] && myval[k]) p_atomic_int_inc (&exp_destroy);
 			VTM ("\"e\":\"exit\",\"h\":%d,\"code\":%d", h, o->op[0] == 'e' ? o->a : 0);
 			fflush (vtm_fp);
 			p_atomic_int_set (&state[h], 3);
@@ -135,13 +136,16 @@ int main (int argc, char **argv) {
 		a = b = 0;
 		if (line[0] == 'T') { int h; TOp o; memset (&o, 0, sizeof o); if (sscanf (line, "T %d: %7s %d %d", &h, o.op, &o.a, &o.b) >= 2) tops[h][ntops[h]++] = o; continue; }
 		if (sscanf (line, "%31s %d %d", op, &a, &b) < 1) continue;
-		if (!strcmp (op, "keynew")) { keys[a] = p_uthread_local_new (b ? DF[a] : NULL); keyf[a] = b; VTM ("\"e\":\"keynew\",\"k\":%d,\"f\":%d", a, b); }
+		if (!strcmp (op, "keynew")) { keys[a] = p_uthread_local_new (b ? DF[a] : NULL); keyf[a] = b; keyused[a] = 1; VTM ("\"e\":\"keynew\",\"k\":%d,\"f\":%d", a, b); }
 		else if (!strcmp (op, "new")) {
 			gate[a] = 0; state[a] = 0;
 			hd[a] = p_uthread_create ((PUThreadFunc) thread_fn, (ppointer) (long) a, b ? TRUE : FALSE, NULL);
 			if (!hd[a]) { fprintf (stderr, "thread create failed\n"); return 3; }
 			haddr[a] = hd[a]; p_atomic_int_inc (&ncreated);
 			VTM ("\"e\":\"create\",\"h\":%d,\"j\":%d", a, b);
+		}
+		else if (!strcmp (op, "keyfree")) {         /* the reference to the key is released; values stored under it stay with their threads */
+			if (keys[a] && !mainval[a]) { VTM ("\"e\":\"keyfree\",\"k\":%d", a); p_uthread_local_free (keys[a]); keys[a] = NULL; }
 		}
 		else if (!strcmp (op, "race")) { __atomic_store_n (&kc_arrived, 0, __ATOMIC_SEQ_CST); __atomic_store_n (&bar_count, 0, __ATOMIC_SEQ_CST); __atomic_store_n (&kc_expect, a, __ATOMIC_SEQ_CST); }
 		else if (!strcmp (op, "go")) p_atomic_int_set (&gate[a], b);
@@ -173,6 +177,7 @@ int main (int argc, char **argv) {
 			wait_until (&nfreed, p_atomic_int_get (&ncreated));
 			wait_until (&got_destroy, p_atomic_int_get (&exp_destroy));
 			for (k = 1; k < MAXK; k++) if (keys[k]) { if (mainval[k]) { p_uthread_set_local (keys[k], NULL); mainval[k] = 0; } p_uthread_local_free (keys[k]); keys[k] = NULL; }
+			for (k = 1; k < MAXK; k++) keyused[k] = 0;
 			__atomic_store_n (&kc_expect, 0, __ATOMIC_SEQ_CST);
 			VTM ("\"e\":\"Epoch\"");
 			for (h = 1; h < MAXH; h++) { ntops[h] = 0; hd[h] = NULL; cellv[h] = 0; if (qaddr[h]) { free (qaddr[h]); qaddr[h] = NULL; } }
